@@ -272,29 +272,17 @@ Qed.
 Definition emitted_statement : Prop :=
   forall y, In y binop_table -> bo_emit y <> EmitAbort.
 
-Theorem accepted_cells_are_emitted_refuted :
-  exists y, In y binop_table /\ bo_emit y = EmitAbort.
-Proof.
-  assert (H : existsb (fun y => binop_eqb (bo_op y) OLt && ty_eqb (bo_l y) TEnum
-                                && ty_eqb (bo_r y) TInt && is_abort (bo_emit y)) binop_table = true)
-    by (vm_compute; reflexivity).
-  apply existsb_exists in H. destruct H as (y & Hin & Hy).
-  exists y. split; [exact Hin|].
-  apply andb_true_iff in Hy. destruct Hy as [_ Ha].
-  destruct (bo_emit y); cbn in Ha; try discriminate. reflexivity.
-Qed.
-
-(* ... the cells concerned all have an enum operand *)
-Lemma abort_cells_have_enum :
-  forallb (fun y => negb (is_abort (bo_emit y)) || ty_eqb (bo_l y) TEnum || ty_eqb (bo_r y) TEnum)
-          binop_table = true.
+(* true since /repo 2ca194c (an item enumerator operand is typed int): before, the 19 cells
+   < <= > >= % (x 3 enum pairs) and == != (enum,int / int,enum) ended in assert(0) *)
+Lemma no_cell_aborts :
+  forallb (fun y => negb (is_abort (bo_emit y))) binop_table = true.
 Proof. vm_compute. reflexivity. Qed.
 
-Theorem accepted_cells_are_emitted_partial :
-  forall y, In y binop_table -> bo_l y <> TEnum -> bo_r y <> TEnum -> bo_emit y <> EmitAbort.
+Theorem accepted_cells_are_emitted : emitted_statement.
 Proof.
-  intros y Hin Hl Hr Ha.
-  pose proof (proj1 (forallb_forall _ binop_table) abort_cells_have_enum y Hin) as H.
-  cbn beta in H. rewrite Ha in H. cbn in H.
-  apply orb_true_iff in H. destruct H as [H|H]; apply ty_eqb_eq in H; contradiction.
+  intros y Hin Ha.
+  pose proof (proj1 (forallb_forall _ binop_table) no_cell_aborts y Hin) as H.
+  cbn beta in H. rewrite Ha in H. discriminate H.
 Qed.
+
+
